@@ -327,6 +327,11 @@ def check_c05(w):
         others = [r for r in rs if r['op'] in ('upload_part', 'upload_part_copy',
                                                'complete_multipart_upload')]
         ok = nat_ok(t)
+        if ok and t['outcome'][0] == 'exc' and not user_overrode(t):
+            # the FUTURE reports a failure / cancellation (result() raises)
+            # although the library's own status says success: for the caller
+            # the transfer failed, so the upload must have been aborted
+            ok = False
         done_stamp = t['outcome'][2]
         if u['completes'] > 1 or (len(comps) > 1 and u['completes'] >= 1):
             w.violation('C05', 'completed-twice',
